@@ -293,11 +293,11 @@ class BCHCodeEncoder(CyclicCodeEncoder):
         """Compute the parity check matrix from the generator matrix."""
         # For a systematic code, the check matrix H can be derived from the generator matrix G.
         # If G = [I_k | P], then H = [P^T | I_(n-k)]
-        identity_part = torch.eye(self._redundancy, dtype=self._dtype, device=self.generator_matrix.device)
-        parity_part = self.generator_matrix[:, self._dimension :].T
-
-        # Construct H = [P^T | I_m]
-        self._check_matrix = torch.cat([parity_part, identity_part], dim=1)
+        # H has the identity on the parity positions and P^T on the information positions
+        check_matrix = torch.zeros((self._redundancy, self._length), dtype=self._dtype, device=self.generator_matrix.device)
+        check_matrix[:, self.parity_set] = torch.eye(self._redundancy, dtype=self._dtype, device=self.generator_matrix.device)
+        check_matrix[:, self.information_set] = self.parity_submatrix.T.to(self._dtype)
+        self._check_matrix = check_matrix
 
     @property
     def mu(self) -> int:
